@@ -1229,10 +1229,13 @@ MANIFEST = {
                   'every single-section reference file -- cross-reference table or stream (any W / Index / filter chain / predictor), object '
                   'streams (any members, spellings, filter chains, predictors), Length direct or by reference (eager and deferred), junk before '
                   'the header, any object order / sectioning / end-of-lines -- to exactly the objects (by value), trailer and version it defines; '
-                  'files of several sections: Prev loop and merge proved format-independently, the layout of ref_write_multi checked by '
-                  'correspondence against an independent reference writer extracted from Coq',
-    'level_note': 'partial only in: files of several cross-reference sections (ref_write_multi: C02_loads_multi_partial is a Definition; the '
-                  'format-independent half is proved); open findings C02-raw-eol (raw CR in literal strings) and C02-deep-parens (nesting above '
+                  'files of several sections linked by Prev (ref_write_multi: objects listed again, superseded definitions): Prev loop and '
+                  'merge proved format-independently; C02_loads_multi_table: every such file whose parts use cross-reference TABLES loads to '
+                  'exactly the objects the document defines (by value), the superseded bodies are not delivered; stream-format / mixed '
+                  'chains checked by correspondence against an independent reference writer extracted from Coq',
+    'level_note': 'partial only in: files of several cross-reference sections whose parts use cross-reference STREAMS or object streams '
+                  '(C02_loads_multi_partial stays a Definition for these; the table-format parts are the theorem C02_loads_multi_table, the '
+                  'format-independent half is proved for all); open findings C02-raw-eol (raw CR in literal strings) and C02-deep-parens (nesting above '
                   '100) are excluded by decidable classes on the input',
     'technique': 'Coq proofs over Gallina models of xref.rs / parser_aux.rs / object_stream.rs / the xref table parser / the token '
                  'parsers; differential check of the models on valid and malformed inputs; reference PDF writer in Gallina '
